@@ -16,12 +16,48 @@ Paths == {1, 2}                       \* 1: ./geodesy   2: the user's data direc
 Suffixes == <<"a", "ab", "b">>        \* names that are prefixes of one another
 Target == "a"
 
-\* a register: which suffixes it lists, in which order, and its layout
+\* a register: which suffixes it lists, in which order, its layout, and how its items are written
 Orders == {<<1, 2, 3>>, <<2, 1, 3>>, <<2, 3, 1>>, <<2, 3>>, <<1>>, <<2>>}
 Layouts == {[nl |-> n, term |-> t, lead |-> l] : n \in {"lf", "crlf"}, t \in BOOLEAN, l \in BOOLEAN}
    \* nl: line ends; term: the last item has its closing fence; lead: prose before the first item
-Registers == {[ord |-> o, lay |-> l] : o \in Orders, l \in Layouts}
-None == [ord |-> <<>>, lay |-> [nl |-> "lf", term |-> TRUE, lead |-> FALSE]]
+(***************************************************************************)
+(* How the items of a register are written.  Rumination 009, "The Plain    *)
+(* register format": "the individual pipelines are highlighted in named    *)
+(* sections using the Markdown code block syntax \"```\"", "The           *)
+(* `geodesy:pointless` identifier tells the Markdown formatter that this   *)
+(* is code using the Geodesy Pipeline format, and that the name of this    *)
+(* pipeline is `pointless`", the register "is written using Markdown       *)
+(* conventions, and hence may serve as a combined representation of human  *)
+(* readable documentation and machine readable register items", and, in    *)
+(* an item, "Blank lines and # inline comments are OK / # Block comments   *)
+(* too".  A Markdown code block starts at a line consisting of the fence   *)
+(* and the identifier (blanks around the identifier do not belong to it),  *)
+(* ends at a line consisting of a fence at least as long, and everything   *)
+(* between the two lines is its content.  Hence:                           *)
+(*   plain       the form shown in Rumination 009                          *)
+(*   trailblank  blanks after the identifier: invisible, not part of it    *)
+(*   trailtab    a tab after the identifier: ditto                         *)
+(*   indent      fences and body indented by three blanks                  *)
+(*   cmtblock    a block comment mentioning ``` inside the item: comments  *)
+(*               are free text, the item ends at the closing fence LINE    *)
+(*   cmtinline   ditto in an inline comment; the step after it belongs to  *)
+(*               the item                                                  *)
+(*   console     other code blocks (```console ... ```) between the items, *)
+(*               as in the repository's own register stupid.md             *)
+(*   quoted      the documentation part of the register shows how to write *)
+(*               the item, the way Rumination 009 does it (a ````text      *)
+(*               block quoting the item): the quotation is the content of  *)
+(*               a `text` block, not an item                               *)
+(* Not documented, hence not generated (see the suite's assumptions):      *)
+(* identifiers in another case (`Geodesy:`), `~~~` fences, blanks between  *)
+(* fence and identifier, duplicate items, a byte order mark.               *)
+(***************************************************************************)
+Variants == {"trailblank", "trailtab", "indent", "cmtblock", "cmtinline", "quoted", "console"}
+Registers == {[ord |-> o, lay |-> l, var |-> "plain"] : o \in Orders, l \in Layouts}
+VarRegisters == {[ord |-> o, lay |-> l, var |-> v] : o \in Orders, l \in Layouts, v \in Variants}
+None == [ord |-> <<>>, lay |-> [nl |-> "lf", term |-> TRUE, lead |-> FALSE], var |-> "plain"]
+\* what the other search path holds when a register is written in one of the variants
+Others == {None, [ord |-> <<2, 1, 3>>, lay |-> [nl |-> "lf", term |-> TRUE, lead |-> FALSE], var |-> "plain"]}
 
 VARIABLES rt, resfile, register, result
 vars == <<rt, resfile, register, result>>
@@ -33,18 +69,22 @@ ItemVal(p, i) == 100 * p + i          \* i: index into Suffixes
 
 HasItem(p) == \E k \in 1..Len(register[p].ord) : Suffixes[register[p].ord[k]] = Target
 ItemIndex == 1                        \* Target = Suffixes[1]
+\* the item of variant "cmtinline" has a second step, `t_add c=1000`, after the comment
+Found(p) == ItemVal(p, ItemIndex) + (IF register[p].var = "cmtinline" THEN 1000 ELSE 0)
 
 Lookup ==
     IF rt THEN RtVal
     ELSE IF resfile[1] THEN FileVal(1)
-    ELSE IF HasItem(1) THEN ItemVal(1, ItemIndex)
+    ELSE IF HasItem(1) THEN Found(1)
     ELSE IF resfile[2] THEN FileVal(2)
-    ELSE IF HasItem(2) THEN ItemVal(2, ItemIndex)
+    ELSE IF HasItem(2) THEN Found(2)
     ELSE 0                             \* not found
 
 Init == /\ rt \in BOOLEAN
         /\ resfile \in [Paths -> BOOLEAN]
-        /\ register \in [Paths -> Registers \cup {None}]
+        /\ \/ register \in [Paths -> Registers \cup {None}]
+           \/ \E p \in Paths, r \in VarRegisters, o \in Others :
+                 register = [q \in Paths |-> IF q = p THEN r ELSE o]
         /\ result = -1
 Resolve == result = -1 /\ result' = Lookup /\ UNCHANGED <<rt, resfile, register>>
 Spec == Init /\ [][Resolve]_vars
@@ -66,10 +106,25 @@ Items(p, reg, k) ==
     ELSE LET i == reg.ord[k]
              last == k = Len(reg.ord)
              nl == NL(reg.lay)
-         IN "Item " \o Suffixes[i] \o nl \o nl
-            \o Fence \o "geodesy:" \o Suffixes[i] \o nl
-            \o "t_add c=" \o ToString(ItemVal(p, i)) \o nl
-            \o (IF last /\ ~reg.lay.term THEN "" ELSE Fence \o nl \o nl)
+             v == reg.var
+             ind == IF v = "indent" THEN "   " ELSE ""
+             trail == CASE v = "trailblank" -> "  " [] v = "trailtab" -> "\t" [] OTHER -> ""
+             step == "t_add c=" \o ToString(ItemVal(p, i))
+             quote == IF v = "quoted"
+                      THEN "Write it like this:" \o nl \o nl \o "````text" \o nl
+                           \o Fence \o "geodesy:" \o Suffixes[i] \o nl
+                           \o "t_add c=" \o ToString(7000 + i) \o nl \o Fence \o nl \o "````" \o nl \o nl
+                      ELSE IF v = "console"
+                      THEN "Try it:" \o nl \o nl \o Fence \o "console" \o nl
+                           \o "$ echo 55 12 | kp f:" \o Suffixes[i] \o nl \o Fence \o nl \o nl
+                      ELSE ""
+             body == CASE v = "cmtblock"  -> "# mind the ``` fences" \o nl \o step \o nl
+                      [] v = "cmtinline" -> step \o " # ``` ends an item" \o nl \o "| t_add c=1000" \o nl
+                      [] OTHER -> ind \o step \o nl
+         IN "Item " \o Suffixes[i] \o nl \o nl \o quote
+            \o ind \o Fence \o "geodesy:" \o Suffixes[i] \o trail \o nl
+            \o body
+            \o (IF last /\ ~reg.lay.term THEN "" ELSE ind \o Fence \o nl \o nl)
             \o Items(p, reg, k + 1)
 RegisterText(p) == (IF register[p].lay.lead THEN "# Register" \o NL(register[p].lay) \o NL(register[p].lay) \o "Some prose." \o NL(register[p].lay) ELSE "")
                    \o Items(p, register[p], 1)
@@ -79,5 +134,6 @@ Emit == result # -1 =>
         rt |-> rt, rtbody |-> "t_add c=" \o ToString(RtVal),
         files |-> [p \in Paths |-> IF resfile[p] THEN "t_add c=" \o ToString(FileVal(p)) ELSE ""],
         registers |-> [p \in Paths |-> IF register[p] = None THEN "" ELSE RegisterText(p)],
+        variants |-> [p \in Paths |-> IF register[p] = None THEN "none" ELSE register[p].var],
         expected |-> result])>>)
 =============================================================================
